@@ -11,6 +11,7 @@ Local Open Scope R_scope.
 Section Proofs.
   Variable K : oracles R.
   Variable minpos : R.
+  Variable op oi : bool.
   Variable jsa_raw : spdc R -> R -> R -> C.
   Variable singles_raw : spdc R -> R -> R -> R.
   Variable norm_jsi : spdc R -> R -> R -> R.
@@ -21,7 +22,7 @@ Section Proofs.
   Local Notation jsa_of := (jsa_of jsa_raw norm_jsi).
   Local Notation jsi_of := (jsi_of jsa_raw norm_jsi).
   Local Notation singles_of := (singles_of singles_raw norm_singles).
-  Local Notation new := (joint_spectrum_new K minpos jsa_raw singles_raw norm_jsi norm_singles freq).
+  Local Notation new := (joint_spectrum_new K minpos op oi jsa_raw singles_raw norm_jsi norm_singles freq).
   Local Notation center := (center freq).
 
   (* the cached amplitude reference is the modulus of the unnormalised amplitude at the optimum's centre *)
@@ -48,18 +49,18 @@ Section Proofs.
   Qed.
 
   Lemma new_ok s j : new s = Ok j ->
-    exists so nf, try_as_optimum R_ops K minpos s = Ok (so, nf) /\ js_spdc j = s /\
+    exists so nf, try_as_optimum R_ops K minpos op oi s = Ok (so, nf) /\ js_spdc j = s /\
       js_jsa_center j = Cmod (jsa_of so (fst (center so)) (snd (center so))) /\
       js_singles_center j = singles_of so (fst (center so)) (snd (center so)).
   Proof.
-    unfold joint_spectrum_new. destruct (try_as_optimum R_ops K minpos s) as [[so nf] | |]; try discriminate.
+    unfold joint_spectrum_new. destruct (try_as_optimum R_ops K minpos op oi s) as [[so nf] | |]; try discriminate.
     unfold Spectrum.center. cbn [fst snd]. intros H. inversion H. subst j. cbn [js_spdc js_jsa_center js_singles_center].
     exists so, nf. repeat split; auto using jsa_center_is, singles_center_is.
   Qed.
 
   (* normalised = unnormalised / unnormalised at the centre of the optimised setup *)
   Theorem normalised_def s j so nf ws wi :
-    new s = Ok j -> try_as_optimum R_ops K minpos s = Ok (so, nf) ->
+    new s = Ok j -> try_as_optimum R_ops K minpos op oi s = Ok (so, nf) ->
     let '(w0s, w0i) := center so in
     jsa_normalized jsa_raw norm_jsi j ws wi = Cdiv (jsa_of s ws wi) (RtoC (Cmod (jsa_of so w0s w0i))) /\
     (0 <= norm_jsi so w0s w0i -> jsi_normalized jsa_raw norm_jsi j ws wi = jsi_of s ws wi / jsi_of so w0s w0i) /\
@@ -83,9 +84,9 @@ Section Proofs.
 
   (* the idler singles spectrum is normalised against the optimum of the SWAPPED setup, evaluated at (wi, ws) *)
   Theorem idler_singles_def j grid l :
-    jsi_singles_idler_normalized_range K minpos jsa_raw singles_raw norm_jsi norm_singles freq pm_inv j grid = Ok l ->
+    jsi_singles_idler_normalized_range K minpos op oi jsa_raw singles_raw norm_jsi norm_singles freq pm_inv j grid = Ok l ->
     exists ji so nf, new (swap_signal_idler pm_inv (js_spdc j)) = Ok ji /\
-      try_as_optimum R_ops K minpos (swap_signal_idler pm_inv (js_spdc j)) = Ok (so, nf) /\
+      try_as_optimum R_ops K minpos op oi (swap_signal_idler pm_inv (js_spdc j)) = Ok (so, nf) /\
       l = map (fun p => singles_of (swap_signal_idler pm_inv (js_spdc j)) (snd p) (fst p) /
                         singles_of so (fst (center so)) (snd (center so))) grid.
   Proof.
@@ -98,7 +99,7 @@ Section Proofs.
 
   (* unit at the centre of a setup that optimisation leaves unchanged (by C20_idempotent: every optimised setup) *)
   Theorem unit_at_centre so nf j :
-    try_as_optimum R_ops K minpos so = Ok (so, nf) -> new so = Ok j ->
+    try_as_optimum R_ops K minpos op oi so = Ok (so, nf) -> new so = Ok j ->
     let '(w0s, w0i) := center so in
     (jsa_of so w0s w0i <> 0%C -> Cmod (jsa_normalized jsa_raw norm_jsi j w0s w0i) = 1) /\
     (0 <= norm_jsi so w0s w0i -> jsi_of so w0s w0i <> 0 -> jsi_normalized jsa_raw norm_jsi j w0s w0i = 1) /\
@@ -132,8 +133,8 @@ Section Proofs.
 
   (* sweep: normalised values = raw values / the reference taken from the base setup's optimum *)
   Theorem sweep base setups opt nf :
-    try_as_optimum R_ops K minpos base = Ok (opt, nf) ->
-    jsi_values_normalized K minpos jsa_raw norm_jsi freq base setups =
+    try_as_optimum R_ops K minpos op oi base = Ok (opt, nf) ->
+    jsi_values_normalized K minpos op oi jsa_raw norm_jsi freq base setups =
     Ok (map (fun v => v / jsi_of opt (fst (center opt)) (snd (center opt))) (jsi_values jsa_raw norm_jsi freq setups)).
   Proof.
     intros Ho. unfold jsi_values_normalized, jsi_values. rewrite Ho. unfold Spectrum.center. cbn [fst snd].
